@@ -16,6 +16,7 @@ import (
 	"github.com/pquerna/otp/totp"
 	"golang.org/x/net/html"
 	"path"
+	"github.com/duo-labs/webauthn/webauthn"
 )
 
 // ---------------------------------------------------------------------------
@@ -475,6 +476,18 @@ func runC18(t *testing.T, cases []map[string]interface{}, ev *vEvents) {
 			w.st.Config.Base.EnableLocalTOTP = true
 			pages = append(pages, w.Do(vReq{Method: "GET", Path: "/profile/", Headers: htmlH,
 				Cookies: map[string]string{authCookieName: w.mintCookie("bob", AuthTypePassword, 0)}}))
+		case "token_attestation_profile":
+			p, _, _, err := w.st.LoadUserProfile("bob")
+			vMust(err)
+			tk := newU2FToken(payload) // the attestation certificate's subject carries the payload
+			p.U2fAuthData = map[int64]*u2fAuthData{7: {Enabled: true, Name: "tok", Registration: tk.registration(), CreatedAt: time.Unix(1700000000, 0)}}
+			p.WebauthnData = map[int64]*webauthAuthData{8: {Enabled: true, Name: "tok", Credential: webauthn.Credential{AttestationType: payload}}}
+			vMust(w.st.SaveUserProfile("bob", p))
+			pages = append(pages, w.Do(vReq{Method: "GET", Path: "/profile/", Headers: htmlH,
+				Cookies: map[string]string{authCookieName: w.mintCookie("bob", AuthTypePassword, 0)}}))
+			pages = append(pages, w.Do(vReq{Method: "GET", Path: "/profile/bob", Headers: htmlH, Cookies: admin}))
+			p.U2fAuthData, p.WebauthnData = map[int64]*u2fAuthData{}, map[int64]*webauthAuthData{}
+			vMust(w.st.SaveUserProfile("bob", p))
 		case "oidc_authorize_unauth":
 			pages = append(pages, w.Do(vReq{Method: "GET", Path: idpOpenIDCAuthorizationPath, Headers: htmlH,
 				Form: url.Values{"client_id": {payload}, "state": {payload}}}))
